@@ -817,11 +817,14 @@ fn systematic_items() -> Vec<CItem> {
         (false, VData::Unnamed("String, u8".into()), "shape:unnamed-variant-data-untagged"),
         (false, VData::Named(vec![CField { attrs: vec![], name: "x".into(), ty: "u8".into(), poison: false }]), "shape:data-carrying-enum-without-tag"),
     ] {
-        let mut it = if tagged { min_tagged() } else { min_unit_enum() };
-        if let Body::Enum(vs) = &mut it.body {
-            vs.push(CVariant { attrs: vec![], name: "Poisoned".into(), data, poison: true });
+        // the offending variant first, in the middle and last
+        for pos in 0..3usize {
+            let mut it = if tagged { min_tagged() } else { min_unit_enum() };
+            if let Body::Enum(vs) = &mut it.body {
+                vs.insert(pos.min(vs.len()), CVariant { attrs: vec![], name: "Poisoned".into(), data: data.clone(), poison: true });
+            }
+            v.push(with(it, cause, "variant", ["first", "middle", "last"][pos]));
         }
-        v.push(with(it, cause, "variant", "-"));
     }
     // unknown and misplaced attributes at every level
     let unknown = ["bogus", "bogus = 1", "renam = \"x\"", "tags = \"t\"", "skipped", "denyunknownfields"];
@@ -919,7 +922,23 @@ fn systematic_items() -> Vec<CItem> {
         }
     }
     // invalid rename_all values
-    for bad in ["rename_all = snake_case", "rename_all = PascalCase", "rename_all = \"camelCase\"", "rename_all = CamelCase", "rename_all = UPPERCASE", "rename_all = camelcase"] {
+    for bad in [
+        "rename_all = snake_case",
+        "rename_all = PascalCase",
+        "rename_all = \"camelCase\"",
+        "rename_all = \"lowercase\"",
+        "rename_all = CamelCase",
+        "rename_all = UPPERCASE",
+        "rename_all = camelcase",
+        "rename_all = CAMELCASE",
+        "rename_all = LOWERCASE",
+        "rename_all = lowerCase",
+        "rename_all = Lowercase",
+        "rename_all = camel_case",
+        "rename_all = lower",
+        "rename_all = camelCase2",
+        "rename_all = kebab-case",
+    ] {
         v.push(with(place("container", min_struct(), bad, None, false, "u8"), "invalid-rename_all-value", "container", "-"));
         v.push(with(place("variant", min_tagged(), bad, None, false, "u8"), "invalid-rename_all-value", "variant", "-"));
     }
